@@ -47,3 +47,31 @@ pub fn reopen_then_mutation(case: &Case) -> bool {
     }
     false
 }
+
+/// Properties whose workers run `Case` histories and that `fz_hist` can serve.
+pub const FUZZ_PROPS: &[&str] = &["C01", "C02", "C03", "C07", "C10"];
+
+/// Op weights, sizes and name-pool bounds under which `fz_hist` decodes bytes for `prop`:
+/// the profile of that property's own workers (quick tier).
+pub fn fuzz_profile(prop: &str) -> (crate::gen::Profile, bool) {
+    use crate::gen::Profile;
+    use crate::props::*;
+    match prop {
+        "C01" => (Profile::c01(), crate::synth::AVAILABLE),
+        "C07" => (c07::profile(Tier::Quick), true),
+        "C10" => (c10::profile(Tier::Quick), crate::synth::AVAILABLE),
+        _ => (c02::profile(Tier::Quick), crate::synth::AVAILABLE),
+    }
+}
+
+/// What `fz_hist` runs on a decoded history: the property's own case runner and oracles.
+pub fn fuzz_report(prop: &str, case: &Case) -> CaseReport {
+    use crate::props::*;
+    match prop {
+        "C01" => c01::report(case, c01::oracles()),
+        "C03" => c03::report(case),
+        "C07" => c07::report(case),
+        "C10" => c10::report(case),
+        _ => c02::report(case),
+    }
+}
